@@ -113,6 +113,19 @@ class Interp:
             except Unsupported:
                 continue
             inner = ty.inner if isinstance(ty, TOpt) else ty
+            if isinstance(ty, TDict) and isinstance(ty.v, TRef) and ty.v.cls == clsname:
+                # dict[K, C] fields (added for C16): no value stored under a key of the domain is the new object
+                entry = z3.Const("%s_%s.%s" % (self.heap.tag, owner, f), z3.ArraySort(I_, sym.sort_of(ty)))
+                for arr in (cur, entry):
+                    if arr.get_id() in done:
+                        continue
+                    done.add(arr.get_id())
+                    o = self.ctx.fresh_const(I_, "fo")
+                    k = self.ctx.fresh_const(sym.sort_of(ty.k), "fk")
+                    cell = V(ty, z3.Select(arr, o))
+                    el = z3.Select(sym.dict_val(cell), k)
+                    self.ctx.assume(z3.ForAll([o, k], z3.Implies(z3.Select(sym.dict_dom(cell), k), el != r), patterns=[el]))
+                continue
             elem = inner.elem if isinstance(inner, TList) else inner
             if not (isinstance(elem, TRef) and elem.cls == clsname):
                 continue
@@ -269,38 +282,58 @@ class Interp:
         if type(base).__name__ == "ExcValue" and attr == "args":
             return ExcArgs(base.exc)  # only subscripted with a constant (e_Subscript)
         if type(base).__name__ == "ExcValue":
-            return self.exc_attr(base.exc, attr)
+            return self.exc_attr(base, attr, node)
         if isinstance(base, PyObj):
             raise Unsupported("attribute of %s" % type(base).__name__)
         return self.attr_of(base, attr, env, node)
 
-    def exc_attr(self, e, attr):
-        """`exc.attr` for an exception caught with `except T as exc`: (1) the keyword argument of that name given at the
-        raise site / the callee contract's raise_attrs (the same value clauses see as exc_<attr>; sound for exception
-        classes whose __init__ stores its keyword arguments under their own names - checked here on the class source);
-        (2) a class-level constant of the raised class or one of its bases.  Anything else is unsupported."""
+    def exc_attr(self, ev, attr, node):
+        """attribute of a caught exception object `except E as exc: ... exc.attr` (added for C16, H3Connection.handle_event).
+        The DYNAMIC class of the exception is only known to be a subclass of the class it was raised / declared with, so
+        an attribute is an UNCONSTRAINED value of its declared type (sound over-approximation, nothing is assumed about
+        which subclass it is):
+          * a class-level attribute defined in the class or a base (ProtocolError.error_code = ErrorCode...): a fresh value
+            of the type of that class-level expression (subclasses may override it with another member);
+          * an instance attribute assigned in __init__ from an annotated parameter of the same name
+            (self.reason_phrase = reason_phrase, reason_phrase: str): a fresh value of the annotated type - this relies on
+            raise sites respecting the annotation (recorded as an assumption)."""
+        e = ev.exc
         if attr in e.kwargs_v:
-            info = self.index.cls(e.exc_type)
-            if info is not None:
-                owner, init = self.index.find_method(info, "__init__")
-                if init is not None:
+            # (C05) the keyword argument of that name given at the raise site / the callee contract's raise_attrs (the same
+            # value clauses see as exc_<attr>); sound for exception classes whose __init__ stores its keyword arguments
+            # under their own names - checked here on the class source
+            info0 = self.index.cls(e.exc_type)
+            if info0 is not None:
+                owner, init0 = self.index.find_method(info0, "__init__")
+                if init0 is not None:
                     ok = any(isinstance(st, ast.Assign) and len(st.targets) == 1 and isinstance(st.targets[0], ast.Attribute) and st.targets[0].attr == attr
                              and isinstance(st.targets[0].value, ast.Name) and st.targets[0].value.id == "self" and isinstance(st.value, ast.Name) and st.value.id == attr
-                             for st in init.body)
+                             for st in init0.body)
                     if not ok:
                         raise Unsupported("exception attribute %s.%s is not a stored constructor argument" % (e.exc_type, attr))
             return e.kwargs_v[attr]
-        info = self.index.cls(e.exc_type)
-        while info is not None:
-            if attr in info.defaults:
-                return self.eval(info.defaults[attr], Env({}, info.module))
-            nxt = None
-            for b in info.bases:
-                nxt = self.index.cls(b, info.module)
-                if nxt is not None:
-                    break
-            info = nxt
-        raise Unsupported("attribute %s of a caught %s" % (attr, e.exc_type))
+        info = self.index.cls(ev.exc.exc_type)
+        if info is None:
+            raise Unsupported("attribute of exception %s" % ev.exc.exc_type)
+        for c in self.index.mro(info):
+            if attr in c.defaults:
+                v = self.eval(c.defaults[attr], Env({}, c.module))
+                if isinstance(v, V):
+                    return sym.fresh(v.ty, self.ctx.fresh_name("exc_" + attr))
+            init = c.methods.get("__init__")
+            if init is not None:
+                for p in init.args.args[1:]:
+                    if p.arg == attr and p.annotation is not None and any(
+                        isinstance(n, ast.Assign) and len(n.targets) == 1 and isinstance(n.targets[0], ast.Attribute) and n.targets[0].attr == attr
+                        and isinstance(n.value, ast.Name) and n.value.id == attr for n in ast.walk(init)
+                    ):
+                        ty = self.types.parse(p.annotation, c.module)
+                        self.assumptions_used.add("exception attributes: %s.%s has the type of the annotated constructor parameter (%s) at every raise site" % (c.name, attr, ast.unparse(p.annotation)))
+                        r = sym.fresh(ty, self.ctx.fresh_name("exc_" + attr))
+                        for f in sym.wf(r):
+                            self.ctx.assume(f)
+                        return r
+        raise Unsupported("attribute %s of exception %s" % (attr, ev.exc.exc_type))
 
     def attr_of(self, base: V, attr, env, node=None):
         ty = base.ty
@@ -317,6 +350,9 @@ class Interp:
                 return sym.mk_int(1)
         if isinstance(ty, TEnum) and attr == "value":
             return V(TInt, base.t)
+        if isinstance(ty, TEnum) and attr == "name":
+            # Enum member name (added for C16): some str, nothing else is known about it; reading it never fails
+            return V(TStr, self.ctx.fresh_const(sym.StrSort, "enum_name"))
         if isinstance(ty, TRef):
             info = self.index.cls(ty.cls)
             attr_m = _mangle(attr, env.cls.name) if env.cls is not None else attr
